@@ -43,6 +43,22 @@ func concPool(r *rng) []geojson.Object {
 			geojson.NewMultiPolygon([]*geometry.Poly{geometry.NewPoly(ring(5), nil, opts)}),
 		)
 	}
+	// a polygon with several holes and a point strictly inside each of them (a query must not
+	// reorder or otherwise touch what the object owns)
+	sq := func(x0, y0, x1, y1 float64) []geometry.Point {
+		return []geometry.Point{{X: x0, Y: y0}, {X: x1, Y: y0}, {X: x1, Y: y1}, {X: x0, Y: y1}, {X: x0, Y: y0}}
+	}
+	for i := 0; i < 2; i++ {
+		opts := &geometry.IndexOptions{Kind: kinds[i], MinPoints: 1}
+		pool = append(pool, geojson.NewPolygon(geometry.NewPoly(sq(0, 0, 30, 10),
+			[][]geometry.Point{sq(2, 2, 8, 8), sq(12, 2, 18, 8), sq(22, 2, 28, 8)}, opts)))
+	}
+	for _, x := range []float64{5, 15, 25, 10} {
+		pool = append(pool, geojson.NewPoint(geometry.Point{X: x, Y: 5}), geojson.NewSimplePoint(geometry.Point{X: x, Y: 5}))
+	}
+	if o, err := geojson.Parse(`{"type":"Polygon","coordinates":[[[0,0,1],[30,0,2],[30,10,3],[0,10,4],[0,0,1]],[[2,2,5],[8,2,6],[8,8,7],[2,8,8],[2,2,5]],[[12,2,9],[18,2,10],[18,8,11],[12,8,12],[12,2,9]],[[22,2,13],[28,2,14],[28,8,15],[22,8,16],[22,2,13]]]}`, nil); err == nil {
+		pool = append(pool, o)
+	}
 	n := len(pool)
 	pool = append(pool, geojson.NewFeature(pool[r.intn(n)], `{"id":1,"properties":{"a":[1,2]}}`))
 	pool = append(pool, geojson.NewGeometryCollection([]geojson.Object{pool[0], pool[3], pool[4], pool[r.intn(n)]}))
@@ -108,9 +124,25 @@ func xconc(seed uint64) string {
 	for i := 0; i < 400; i++ {
 		tasks = append(tasks, task{r.intn(len(pool)), r.intn(len(pool)), r.intn(12)})
 	}
+	before := make([]string, len(pool))
+	for i, o := range pool {
+		before[i] = o.JSON()
+	}
 	solo := make([]string, len(tasks))
 	for i, t := range tasks {
 		solo[i] = concTask(pool[t.a], pool[t.b], t.k)
+	}
+	// every pair once more, predicates only: a query must leave both objects as they were
+	for _, a := range pool {
+		for _, b := range pool {
+			a.Contains(b)
+			a.Intersects(b)
+		}
+	}
+	for i, o := range pool {
+		if o.JSON() != before[i] {
+			return fmt.Sprintf("FAIL object changed by queries: %s now serialises differently", kindName(o))
+		}
 	}
 	// the concurrent phase runs on a second, identical pool, so that the first use of every
 	// object (where a lazily filled cache would be written) happens concurrently
